@@ -1145,5 +1145,6 @@ func init() {
 			Corpus: []c13PCase{{Pattern: `(?:ab?)*c`}, {Pattern: `(?<n>a)*?(?(n)b|c){2,5}(?>x+)(?<=y)`, Opts: int(regexp2.RightToLeft)}},
 			N: c.N(4000, 200000), Gen: c13GenP, Check: c13CheckP, Batch: 1000,
 		})
+		wrLeg(c, 800, 40000) // the writer model behind QuickCodes / TrackCount (leg Wr, see writer.go)
 	})
 }
